@@ -257,6 +257,23 @@ theorem cleanServers_good (C : Addr → Prop) (retention : Int) {E R} : Good C E
   | error e => exact Good.pure _ _ _
   | ok svrs => exact removeAll_good C _ svrs 0 0
 
+/-- the cleaner at storage-command granularity (index scan, record fetch, guarded removes — what the running cleaner
+and the driver's cleaner client execute): reads and removals only, so every call meets its obligations -/
+theorem cleanServers2_good (C : Addr → Prop) (retention : Int) {E R} : Good C E R (UC.cleanServers2 retention) := by
+  unfold UC.cleanServers2
+  refine Good.call _ _ _ _ trivial (fun now _ => ?_)
+  refine Good.call _ _ _ _ trivial (fun r _ => ?_)
+  cases r with
+  | error e => exact Good.pure _ _ _
+  | ok scanned =>
+    dsimp only
+    split
+    · exact Good.pure _ _ _
+    · refine Good.call _ _ _ _ trivial (fun r _ => ?_)
+      cases r with
+      | error e => exact Good.pure _ _ _
+      | ok svrs => exact removeAll_good C _ _ 0 0
+
 theorem cleanInstances_good (C : Addr → Prop) (retention : Int) {E R} : Good C E R (UC.cleanInstances retention) := by
   unfold UC.cleanInstances
   refine Good.call _ _ _ _ trivial (fun now _ => ?_)
@@ -281,6 +298,9 @@ inductive Client : {α : Type} → Prog α → Prop where
   | renew (instanceId srcIp : Nat) : Client (UC.renew instanceId srcIp)
   | remove (instanceId : Nat) (a : Addr) : Client (UC.remove instanceId a)
   | cleanServers (retention : Int) : Client (UC.cleanServers retention)
+  /-- the two-step cleaner (`Filter` as index scan + record fetch, then the guarded removes): the program the
+  driver's cleaner client and `ServerCleaner.Clean` run -/
+  | cleanServers2 (retention : Int) : Client (UC.cleanServers2 retention)
   | cleanInstances (retention : Int) : Client (UC.cleanInstances retention)
   | listServers (liveness : Int) (status : Status) : Client (UC.listServers liveness status)
   | now {α : Type} (k : Int → Prog α) : (∀ t, Client (k t)) → Client (.call .now k)
@@ -295,6 +315,7 @@ theorem Client.good {α : Type} {p : Prog α} (h : Client p) : Good Addr.PortOk 
   | renew i sip => exact renew_good _ i sip
   | remove i a => exact remove_good _ i a
   | cleanServers r => exact cleanServers_good _ r
+  | cleanServers2 r => exact cleanServers2_good _ r
   | cleanInstances r => exact cleanInstances_good _ r
   | listServers l st => exact listServers_good _ l st
   | now k _ ih =>
